@@ -574,6 +574,35 @@ def check_style(fg, bg, attrs):
         ansi_case("IO.format(style=)", io.format(B_TEXT_STYLED, style=st) + io.format(B_NEXT), seg_single)
         ansi_case("IO.format(style=)+tags", io.format(B_MIXED, style=st) + io.format(B_NEXT), seg_mixed)
         plain_case("IO.format(style=)", BufferedIO().format(B_TEXT_STYLED, style=st), B_TEXT_STYLED)
+        # 3c. a Style object is a mutable builder: used once, refined (one more attribute / the colours set afterwards),
+        #     used again -> the second rendering shows the refined style, through format(style=) and through add_style
+        if attrs or fg or bg:
+            names = [a[0] for a in ATTRS if a[0] in attrs]
+            first = set(names[:-1]) if names else set()
+            f5 = _ansi()
+            sm = make_style(None, fg if names else None, bg if names else None, first)
+            f5.format(B_TEXT_STYLED, style=sm)
+            if names:
+                getattr(sm, names[-1])()
+            else:
+                if fg:
+                    sm.fg(fg)
+                if bg:
+                    sm.bg(bg)
+            ansi_case("format(style=):refined-object", f5.format(B_TEXT_STYLED, style=sm) + f5.format(B_NEXT), seg_single)
+            f6 = _ansi()
+            sn = make_style("s0", fg if names else None, bg if names else None, first)
+            f6.add_style(sn)
+            f6.format(tagged)
+            if names:
+                getattr(sn, names[-1])()
+            else:
+                if fg:
+                    sn.fg(fg)
+                if bg:
+                    sn.bg(bg)
+            f6.add_style(sn)
+            ansi_case("add_style:refined-object", f6.format(tagged))
         # 3b. a single-call style given together with an empty or tags-only text: nothing to decorate,
         #     and the next (tagged) call on the same formatter must not inherit the style
         for way, empty in (("format(style=)+empty-text", ""), ("format(style=)+tags-only-text", "<b></b>")):
